@@ -684,3 +684,50 @@ def positive_conditions(fi: FuncInfo, node: ast.AST) -> list[tuple[ast.AST, bool
             test, pol = new, not pol
         out.append((test, pol))
     return out
+
+
+# --------------------------------------------------------------------------- one-shot iterables
+
+def iterable_param_obligations(ctx: Context, rule: str, fi: FuncInfo) -> int:
+    """A parameter declared Iterable / Iterator may be a generator: it can be consumed once.
+    Every such parameter is consumed at most once in its original binding (and not inside a
+    loop); a function that needs it twice re-binds it to a list first."""
+    flow = ctx.flow(fi)
+    n = 0
+    a = fi.node.args
+    for arg in a.args + a.kwonlyargs:
+        if arg.annotation is None or not any(k in ast.unparse(arg.annotation) for k in ('Iterable', 'Iterator', 'Generator')):
+            continue
+        uses = []
+        parents = {}
+        for node in ast.walk(fi.node):
+            for ch in ast.iter_child_nodes(node):
+                parents[ch] = node
+        for node in ast.walk(fi.node):
+            if isinstance(node, ast.Name) and node.id == arg.arg and isinstance(node.ctx, ast.Load) and any(d.kind == 'param' for d in flow.defs_of(node)):
+                par = parents.get(node)
+                if isinstance(par, ast.Compare) and len(par.ops) == 1 and isinstance(par.ops[0], (ast.Is, ast.IsNot)):
+                    continue
+                uses.append(node)
+        in_loop = []
+        for u in uses:
+            cur = u
+            while cur in parents:
+                prev, cur = cur, parents[cur]
+                if isinstance(cur, (ast.For, ast.While)) and prev is not getattr(cur, 'iter', None):
+                    in_loop.append(u)
+                    break
+                if isinstance(cur, ast.comprehension) and prev is not cur.iter:
+                    in_loop.append(u)
+                    break
+                if isinstance(cur, (ast.ListComp, ast.SetComp, ast.DictComp, ast.GeneratorExp)) and not isinstance(prev, ast.comprehension):
+                    in_loop.append(u)
+                    break
+                if cur is fi.node:
+                    break
+        ok = len(uses) <= 1 and not in_loop
+        ctx.check(rule, ok, f"the Iterable parameter `{arg.arg}` of {fi.short.split('.')[-1]} is consumed at most once before being re-bound (a generator argument must work)",
+                  fi, uses[1] if len(uses) > 1 else (in_loop[0] if in_loop else (uses[0] if uses else fi.node)),
+                  construct=f"{arg.arg}: consumed at {[norm_text(parents.get(u, u))[:50] for u in uses]}")
+        n += 1
+    return n
